@@ -161,7 +161,7 @@ class ExcWrapperModel:
 
 
 @R.spec("Pyro5.server._OnewayCallThread", doc="thread object that will run method(*vargs, **kwargs) once, later, in its own thread "
-        "(its run/_methodcall are under contract separately); start() only schedules it")
+        "(its __init__ / run / _methodcall are under contract in contracts/oneway_thread.py); start() only schedules it")
 def oneway_thread(E, st, args, kw):
     t = st.new_obj("oneway_thread", method=args[0], vargs=args[1], kwargs=args[2])
     return [Res(st, t)]
